@@ -304,6 +304,11 @@ def patShapeOverhead : Expr → Nat
   | .blockO h _ => match h.label with | some n => 7 + n | none => 5
   | _ => 5
 
+/-- the repaired `rewrite_match_arm`: the overhead of the body as it is going to be printed
+(`flatten_arm_body(context, body, None)`); the pinned tree took `patShapeOverhead` of the body as written -/
+def patOverhead (forceMultiline insideMacro : Bool) (body : Expr) : Nat :=
+  patShapeOverhead (flattenArmBody forceMultiline insideMacro false body).2
+
 /-! ## §4 `closures.rs` -/
 
 /-- `needs_block(block, label, prefix, context)`; `firstAttrs` = the attributes of the first statement -/
